@@ -45,7 +45,7 @@ pub fn common_gcd_for_chunk_meta<T: NumberLike>(prefixes: &[Prefix<T>]) -> Optio
   let mut nontrivial_ranges_share_gcd: bool = true;
   let mut gcd = None;
   for p in prefixes {
-    if p.upper != p.lower {
+    if !p.upper.num_eq(&p.lower) {
       if gcd.is_none() {
         gcd = Some(p.gcd);
       } else {
@@ -77,8 +77,9 @@ pub fn use_gcd_prefix_optimize<T: NumberLike>(
   }
   for (i, pi) in prefixes.iter().enumerate().skip(1) {
     let pj = &prefixes[i - 1];
-    if pi.lower == pi.upper &&
-      pj.lower == pj.upper &&
+    // compare bitwise (num_eq) so that NaN bounds count as a single value too
+    if pi.lower.num_eq(&pi.upper) &&
+      pj.lower.num_eq(&pj.upper) &&
       pj.upper.to_unsigned() + T::Unsigned::ONE < pi.lower.to_unsigned() {
       return true;
     }
@@ -88,7 +89,7 @@ pub fn use_gcd_prefix_optimize<T: NumberLike>(
 
 pub fn use_gcd_arithmetic<T: NumberLike>(prefixes: &[Prefix<T>]) -> bool {
   prefixes.iter()
-    .any(|p| p.gcd > T::Unsigned::ONE && p.upper != p.lower)
+    .any(|p| p.gcd > T::Unsigned::ONE && !p.upper.num_eq(&p.lower))
 }
 
 pub fn gcd_bits_required<U: UnsignedLike>(range: U) -> usize {
